@@ -97,31 +97,50 @@ def retire_pred(P):
 
 
 def reader_dispatch(P):
-    """(reader fn, list of (site, handler Fn)) for the calls inside the dispatch switch."""
+    """(reader fn, list of (site, handler Fn, letters)) for the handler calls of the command dispatch - a switch on the
+    command letter, or the same thing written as an if / else-if chain on the letter (or a local copy of it)."""
     rd = P.need_fn('iauth_read')
     out = []
     sw = None
     for bid in rd.reachable_blocks():
         if any(e.label == 'case' for e in rd.out[bid]):
             c = rd.term_cond(bid)
-            if c is not None and any(x.get('k') == 'idx' for x in walk(c)):
+            if c is not None and (any(x.get('k') == 'idx' for x in walk(c)) or is_var(c)):
                 sw = bid
-    if sw is None:
-        raise AnalysisBroken('the reader has no dispatch switch on the command letter')
     seen = set()
-    for e in rd.out[sw]:
-        if e.label != 'case':
-            continue
-        # the case body: blocks reachable from the case target without re-entering the switch head
-        for b in rd.reach([e.dst], cut_blocks=[sw]):
-            for s in rd.block_sites(b):
-                if s.ev['k'] == 'call' and s.key not in seen:
-                    ts = P.callees(s, False)
-                    if ts and ts[0].unit == rd.unit and ts[0].name.startswith('parse_'):
-                        seen.add(s.key)
-                        out.append((s, ts[0], e.vs))
+    if sw is not None:
+        for e in rd.out[sw]:
+            if e.label != 'case':
+                continue
+            # the case body: blocks reachable from the case target without re-entering the switch head
+            for b in rd.reach([e.dst], cut_blocks=[sw]):
+                for s in rd.block_sites(b):
+                    if s.ev['k'] == 'call' and s.key not in seen:
+                        ts = P.callees(s, False)
+                        if ts and ts[0].unit == rd.unit and ts[0].name.startswith('parse_'):
+                            seen.add(s.key)
+                            out.append((s, ts[0], e.vs))
     if len(out) < 10:
-        raise AnalysisBroken('dispatch switch has only %d handler calls' % len(out))
+        # if-chain form: the letter of a handler call is the constant its guards compare the command character with
+        out, seen = [], set()
+
+        def is_letter_expr(x):
+            if isinstance(x, dict) and x.get('k') == 'idx' and isinstance(x.get('base'), dict) and x['base'].get('k') == 'idx':
+                return True
+            if is_var(x) and x.get('sc') == 'local' and 'char' in x.get('t', ''):
+                d = rd.single_def(x['name'])
+                return bool(d) and isinstance(d[1], dict) and d[1].get('k') == 'idx' and isinstance(d[1].get('base'), dict) and d[1]['base'].get('k') == 'idx'
+            return False
+        for s in rd.calls():
+            ts = P.callees(s, False)
+            if not (ts and ts[0].unit == rd.unit and ts[0].name.startswith('parse_')):
+                continue
+            vs = [const_of(g[2]) for g in rd.guards(s.bid) if g[1] == '==' and isinstance(const_of(g[2]), int) and const_of(g[2]) > 32 and is_letter_expr(g[0])]
+            if vs and s.key not in seen:
+                seen.add(s.key)
+                out.append((s, ts[0], vs[:1]))
+        if len(out) < 10:
+            raise AnalysisBroken('the reader has no dispatch on the command letter (found %d handler calls)' % len(out))
     return rd, out
 
 
